@@ -4,8 +4,14 @@ import (
 	"encoding/json"
 	"fmt"
 	"os"
+	"path/filepath"
 
 	"github.com/NethermindEth/juno/core/felt"
+	"github.com/NethermindEth/juno/db/memory"
+	rpcv10 "github.com/NethermindEth/juno/rpc/v10"
+	"github.com/NethermindEth/juno/sync"
+	"github.com/NethermindEth/juno/utils/log"
+	"verifharness/chain"
 	"github.com/NethermindEth/juno/core/trie2"
 	"github.com/NethermindEth/juno/core/trie2/trienode"
 	"verifharness/hx"
@@ -61,6 +67,7 @@ func cachedHashProbe(c *hx.Ctx, r *hx.RNG) {
 }
 
 func replay(c *hx.Ctx, or *hx.Oracle, r *hx.RNG) {
+	c.ReplayDir = filepath.Join(c.ReplayDir, "rerun") // never overwrite the file being replayed
 	b, err := os.ReadFile(c.ReplayIn)
 	hx.Must(err)
 	var w struct {
@@ -81,6 +88,15 @@ func replay(c *hx.Ctx, or *hx.Oracle, r *hx.RNG) {
 		Ops      []string  `json:"ops"`
 	}
 	hx.Must(json.Unmarshal(w.Replay, &probe))
+	var rk struct {
+		Kind    string        `json:"kind"`
+		Chain   *rpcChainCase `json:"chain"`
+		Request *rpcRequest   `json:"request"`
+	}
+	if json.Unmarshal(w.Replay, &rk) == nil && rk.Kind == "rpc" && rk.Chain != nil {
+		replayRPC(c, r, rk.Chain, rk.Request)
+		return
+	}
 	switch {
 	case probe.Probe == "cached-hash":
 		cachedHashProbe(c, r)
@@ -105,9 +121,11 @@ func replay(c *hx.Ctx, or *hx.Oracle, r *hx.RNG) {
 			c.Violation(probe.Impl+":forged:"+kind, "replayed: "+g, probe, false)
 		}
 	case probe.Root != "" && len(probe.Set) > 0:
-		evalSynth(c, or, synthCase{probe.Hash, probe.Key, probe.Set, probe.Root})
+		evalSynth(c, or, synthCase{Hash: probe.Hash, Key: probe.Key, Set: probe.Set, Root: probe.Root})
 	case probe.Trie != nil && probe.First != "":
-		evalRange(c, r, *probe.Trie)
+		var rc rangeCase
+		hx.Must(json.Unmarshal(w.Replay, &rc))
+		replayRange(c, rc)
 	case probe.Trie != nil:
 		report(c, evalCase(c, or, r, *probe.Trie, true), *probe.Trie)
 	default:
@@ -118,3 +136,33 @@ func replay(c *hx.Ctx, or *hx.Oracle, r *hx.RNG) {
 }
 
 var _ = felt.Zero
+
+// replayRPC rebuilds the stored chain and repeats the stored request (the order of
+// contracts_storage_proofs follows Go map iteration, so the call is repeated)
+func replayRPC(c *hx.Ctx, r *hx.RNG, cc *rpcChainCase, rq *rpcRequest) {
+	tag := "legacy"
+	if cc.NewState {
+		tag = "newstate"
+	}
+	x := &rpcRun{c: c, r: r, st: &rpcStats{}, tag: tag}
+	if rq == nil {
+		x.runChain(cc)
+		return
+	}
+	database := memory.New()
+	defer database.Close()
+	node := chain.NewNode(database, cc.NewState)
+	m := newRPCModel()
+	for i := range cc.Specs {
+		_, err := node.Finalise(&cc.Specs[i])
+		hx.Must(err)
+		m.apply(&cc.Specs[i])
+	}
+	head, err := node.BC.HeadsHeader()
+	hx.Must(err)
+	handler := rpcv10.New(node.BC, &sync.NoopSynchronizer{}, nil, log.NewNopZapLogger())
+	for i := 0; i < 25 && c.NViolations() == 0; i++ {
+		x.query(handler, node, head.Number, head.Hash, head.GlobalStateRoot, m, cc, rq)
+	}
+	fmt.Printf("replay: rpc StorageProof request repeated; violations reproduced: %d\n", c.NViolations())
+}
